@@ -381,7 +381,7 @@ def build(ctx):
             let c = new_connection;
             (final(self).view() =~~= add_spec(pre, c, true).0 && r == add_spec(pre, c, true).1)
             || (final(self).view() =~~= add_spec(pre, c, false).0 && r == add_spec(pre, c, false).1)
-        }), // @OBL ActivePeersInner::add::transition [C04,C03] add(c): absent -> insert + NewPeer; present -> either (replace: insert, close old, LostPeer(Requested) then NewPeer) or (reject: close new, no event, None); nothing else changes
+        }), // @OBL ActivePeersInner::add::transition [C04,C03,C09] add(c): absent -> insert + NewPeer; present -> either (replace: insert, close old, LostPeer(Requested) then NewPeer) or (reject: close new, no event, None); nothing else changes
         ({
             let pre = old(self).view();
             let c = new_connection;
